@@ -2255,6 +2255,42 @@ fn c13(cases: &mut u64) -> Option<String> {
             }
         }
     }
+    // whole-hunk iteration (AllChangesIter behind UnifiedDiffHunk::iter_changes) over HAND-BUILT op lists, incl. ops
+    // that consume nothing (zero-length Delete / Insert / Replace / Equal) in every position: equals the concatenation
+    // of the per-op expansions  (round-5 seed C13-13)
+    {
+        let r = guard(|| {
+            let d = TextDiff::from_lines("a\nb\nc\nd\n", "a\nX\nc\nY\n");
+            let mut pool: Vec<DiffOp> = Vec::new();
+            for i in 0..3usize {
+                for l in 0..2usize {
+                    pool.push(DiffOp::Equal { old_index: i, new_index: i, len: l });
+                    pool.push(DiffOp::Delete { old_index: i, old_len: l, new_index: i });
+                    pool.push(DiffOp::Insert { old_index: i, new_index: i + 1, new_len: l });
+                    pool.push(DiffOp::Replace { old_index: i, old_len: l, new_index: i, new_len: 1 - l });
+                    pool.push(DiffOp::Replace { old_index: i, old_len: l, new_index: i, new_len: l });
+                }
+            }
+            let flat = |v: &Vec<Change<&str>>| -> Vec<(ChangeTag, Option<usize>, Option<usize>, String)> { v.iter().map(|c| (c.tag(), c.old_index(), c.new_index(), c.value().to_string())).collect() };
+            let mut lists: Vec<Vec<DiffOp>> = Vec::new();
+            for a in &pool { lists.push(vec![*a]); for b in &pool { lists.push(vec![*a, *b]); for c in &pool { lists.push(vec![*a, *b, *c]); } } }
+            for ops in lists {
+                let want: Vec<Change<&str>> = ops.iter().flat_map(|op| d.iter_changes(op)).collect();
+                let hunk = similar::udiff::UnifiedDiffHunk::new(ops.clone(), &d, false);
+                let got: Vec<Change<&str>> = hunk.iter_changes().collect();
+                if flat(&got) != flat(&want) {
+                    return Some(format!("C13 UnifiedDiffHunk::new({:?}, from_lines(\"a\\nb\\nc\\nd\\n\", \"a\\nX\\nc\\nY\\n\")).iter_changes() = {:?}, but the concatenated per-op expansions are {:?}", ops, flat(&got), flat(&want)));
+                }
+            }
+            None
+        });
+        *cases += 1;
+        match r {
+            Err(p) => return Some(format!("C13 UnifiedDiffHunk::iter_changes over hand-built op lists: {}", p)),
+            Ok(Some(w)) => return Some(w),
+            Ok(None) => {}
+        }
+    }
     None
 }
 
